@@ -180,6 +180,19 @@ def step_definitions(plan):
                         _logging.getLogger(emit.get("logger") or "vf").log(
                             int(emit.get("level") or _logging.WARNING),
                             emit["log"].replace("{S}", sname) + "#%d;" % i)
+                if emit.get("relog"):
+                    # the application under test configures logging on its own: the root logger's handlers
+                    # (behave's capture handler among them) are replaced and not put back
+                    if emit["relog"] == "clear":
+                        _logging.getLogger().handlers[:] = []
+                    elif emit["relog"] == "basicConfig":
+                        import io as _io
+                        _logging.basicConfig(force=True, stream=_io.StringIO())
+                    elif emit["relog"] == "dictConfig":
+                        import logging.config as _lc
+                        _lc.dictConfig({"version": 1, "disable_existing_loggers": False,
+                                        "handlers": {"null": {"class": "logging.NullHandler"}},
+                                        "root": {"handlers": ["null"], "level": "WARNING"}})
         for obs in plan.observers:
             obs("step", uid, context, info)
 
